@@ -32,8 +32,10 @@ CORR_DEC = ["corr.dec.class", "corr.dec.value", "corr.const"]
 
 PROPS = {
     "C01": dict(
-        runs=lambda t: [catalogue(t, "enc,dec", values=(60, 400), nbytes=(0, 0), exhaustive=(0, 0)), reached(t)],
-        corr=CORR_ENC + CORR_DEC + ["corr.bf"], oracle=["oracle.C01", "abort"]),
+        runs=lambda t: [catalogue(t, "enc,dec", values=(60, 400), nbytes=(0, 0), exhaustive=(0, 0)), reached(t),
+                        # values that exist only through the byte-level constructor of the dynamic bitvector
+                        dict(args=["--ops", "bfwithlen", "--count", str(T(t, 2000, 40000))], shards=1)],
+        corr=CORR_ENC + CORR_DEC + ["corr.bf", "corr.bf.withlen"], oracle=["oracle.C01", "abort"]),
     "C02": dict(
         runs=lambda t: [catalogue(t, "dec", values=(16, 60), nbytes=(1200, 6000), exhaustive=(1, 1)),
                         catalogue(t, "dec", values=(0, 2), nbytes=(0, 0), exhaustive=(0, 2), tag="fixed")],
